@@ -227,6 +227,8 @@ func checkC06(p *Prog, r *Report) {
 		return strings.Contains(key, "Operations") || strings.Contains(key, "AddFunctionType")
 	})
 	c06Rebuild(p, r)
+	r.Rule("R7", "every hand-written element-wise comparison of two slices of one type compares their lengths for equality: entity addresses are never matched by prefix (shared lint, C20-R6)")
+	sliceEqualityHelpers(p, r, "R7")
 	r.Rule("R6", "the per-entity clean-ups called by the cascade remove that entity's entries and nothing else: keep ⇔ ¬(client device ∧ client entity equal) (retain truth tables, shared with C10-R1)")
 	applyRetain(p, r, "R6", "spine", "SubscriptionManager", "RemoveSubscriptionsForEntity", retainSpec{Field: F("SubscriptionManager.subscriptionEntries"),
 		Required: map[string]string{"client.device": "ClientFeature.Device().Ski()|ClientFeature.Address().Device", "client.entity": "ClientFeature.Address().Entity"}})
